@@ -1387,6 +1387,10 @@ func (ca *cpuAllocator) AllocateCpus(from *cpuset.CPUSet, cnt int, options ...Op
 func (ca *cpuAllocator) ReleaseCpus(from *cpuset.CPUSet, cnt int, options ...Option) (cpuset.CPUSet, error) {
 	oset := from.Clone()
 
+	if from.Size() < cnt {
+		return cpuset.New(), fmt.Errorf("cpuset %s does not have %d CPUs to release", from, cnt)
+	}
+
 	result, err := ca.allocateCpus(from, from.Size()-cnt, options...)
 
 	ca.Debug("ReleaseCpus(#%s, %d) => kept: #%s, released: #%s", oset, cnt, from, result)
